@@ -18,6 +18,7 @@ import (
 	"context"
 	"encoding/json"
 	"fmt"
+	"sync"
 	"time"
 
 	"github.com/pkg/errors"
@@ -71,11 +72,45 @@ func (r *resourceLockManager) GetResourceLock() resourcelock.Interface {
 type resourceLock struct {
 	store       storage.KvStorage
 	lockConfig  resourcelock.ResourceLockConfig
-	record      resourcelock.LeaderElectionRecord
-	lastVal     []byte
 	electionKey []byte
-	tso         uint64
 	timeout     time.Duration
+
+	// mu protects record, lastVal and tso, which are written by the election loop
+	// and read through Describe by request handlers
+	mu      sync.RWMutex
+	record  resourcelock.LeaderElectionRecord
+	lastVal []byte
+	tso     uint64
+}
+
+func (r *resourceLock) setLastVal(val []byte) {
+	r.mu.Lock()
+	defer r.mu.Unlock()
+	r.lastVal = val
+}
+
+func (r *resourceLock) getLastVal() []byte {
+	r.mu.RLock()
+	defer r.mu.RUnlock()
+	return r.lastVal
+}
+
+func (r *resourceLock) setRecord(record resourcelock.LeaderElectionRecord) {
+	r.mu.Lock()
+	defer r.mu.Unlock()
+	r.record = record
+}
+
+func (r *resourceLock) setTso(tso uint64) {
+	r.mu.Lock()
+	defer r.mu.Unlock()
+	r.tso = tso
+}
+
+func (r *resourceLock) getTsoValue() uint64 {
+	r.mu.RLock()
+	defer r.mu.RUnlock()
+	return r.tso
 }
 
 // Get implements resourcelock.Interface
@@ -92,7 +127,10 @@ func (r *resourceLock) Get() (*resourcelock.LeaderElectionRecord, error) {
 		return nil, err
 	}
 
-	return &r.record, nil
+	r.mu.RLock()
+	defer r.mu.RUnlock()
+	record := r.record
+	return &record, nil
 }
 
 func (r *resourceLock) getRecord() (err error) {
@@ -106,19 +144,20 @@ func (r *resourceLock) getRecord() (err error) {
 		}
 		return err
 	}
-	r.lastVal = val
+	r.setLastVal(val)
 	var record resourcelock.LeaderElectionRecord
 	if err := json.Unmarshal(val, &record); err != nil {
 		return err
 	}
-	r.record = record
+	r.setRecord(record)
 	return nil
 }
 
 func (r *resourceLock) getTso() (err error) {
 	ctx, cancel := r.genContext(context.Background())
 	defer cancel()
-	r.tso, err = r.store.GetTimestampOracle(ctx)
+	tso, err := r.store.GetTimestampOracle(ctx)
+	r.setTso(tso)
 	return err
 }
 
@@ -136,15 +175,16 @@ func (r *resourceLock) Create(ler resourcelock.LeaderElectionRecord) error {
 	if err != nil {
 		return err
 	}
-	r.lastVal = lerBytes
-	r.tso, err = r.store.GetTimestampOracle(context.Background())
+	r.setLastVal(lerBytes)
+	tso, err := r.store.GetTimestampOracle(context.Background())
+	r.setTso(tso)
 	return err
 }
 
 // Update implements resourcelock.Interface
 func (r *resourceLock) Update(ler resourcelock.LeaderElectionRecord) error {
 	klog.V(8).Info("[resource lock] update lock")
-	if r.tso == 0 {
+	if r.getTsoValue() == 0 {
 		return errors.New("endpoint not initialized, call get or create first")
 	}
 
@@ -154,7 +194,7 @@ func (r *resourceLock) Update(ler resourcelock.LeaderElectionRecord) error {
 	}
 
 	batch := r.store.BeginBatchWrite()
-	batch.CAS(r.electionKey, recordBytes, r.lastVal, 0)
+	batch.CAS(r.electionKey, recordBytes, r.getLastVal(), 0)
 	ctx, cancel := r.genContext(context.Background())
 	defer cancel()
 	err = batch.Commit(ctx)
@@ -162,7 +202,8 @@ func (r *resourceLock) Update(ler resourcelock.LeaderElectionRecord) error {
 		return err
 	}
 
-	r.tso, err = r.store.GetTimestampOracle(context.Background())
+	tso, err := r.store.GetTimestampOracle(context.Background())
+	r.setTso(tso)
 	return err
 }
 
@@ -177,6 +218,8 @@ func (r *resourceLock) Identity() string {
 }
 
 func (r *resourceLock) Describe() string {
+	r.mu.RLock()
+	defer r.mu.RUnlock()
 	if len(r.record.HolderIdentity) > 0 {
 		return fmt.Sprintf("%s,%d", r.record.HolderIdentity, r.tso)
 	}
